@@ -43,6 +43,13 @@ func Scenarios(prop string) []gx.Sc {
 		// the lookup of the partition's offsets fails while a claim opens its partition consumer (ListOffsets answered
 		// NOT_LEADER, connection lost): the claim may fail, it must not start anywhere else than at the committed offset
 		{Name: "cg?m=1&np=1&n=3&mode=k1&ns=2&init=valid&gates=" + gates + "&faults=offsets-notleader,offsets-drop,hb-rebalance" + ca, Q: 2, T: 3},
+		// the fetch of the committed offsets fails while a session starts (coordinator moved, connection lost, an error
+		// without special treatment): the session may fail, a claim must not start anywhere else than at the committed offset
+		{Name: "cg?m=1&np=1&n=3&mode=k1&ns=2&init=valid&gates=" + gates + "&faults=ofetch-notcoord,ofetch-drop,ofetch-other,hb-rebalance" + ca, Q: 2, T: 3},
+		// the coordinator moves while a member joins; errors of join and sync that have no special treatment
+		{Name: "cg?m=1&np=1&n=2&mode=all&ns=2&gates=" + gates + "&faults=join-notcoord,join-other,sync-other,sync-notcoord,hb-rebalance" + ca, Q: 2, T: 3},
+		// a claim that commits by hand (session.Commit) and then returns an error
+		{Name: "cg?m=1&np=1&n=3&mode=k1e&ns=2&init=valid&gates=" + gates + "&faults=" + faults + ca, Q: 1, T: 2},
 		// no rebalance retries at all (Rebalance.Retry.Max = 0): every budget-bound branch of a rebalance is on its last attempt
 		{Name: "cg?m=1&np=1&n=2&mode=all&ns=2&rbmax=0&gates=" + gates + "&faults=" + faults + ca, Q: 2, T: 3},
 	}
